@@ -4,6 +4,7 @@ import Proofs.Lemmas.EmitOrder
 import Proofs.Lemmas.EmitQuote
 import Proofs.Lemmas.EmitFuse
 import Proofs.Lemmas.EmitCtx
+import Proofs.Lemmas.EmitType
 import Generated.C16CompileNodes
 /-!
 # C16 — ahead-of-time compilation preserves behaviour (compiled = interpreted)
@@ -700,5 +701,68 @@ example : needsNode { demo with nodeNeedsTag := true } ⟨"node.SwitchStatement"
   decide
 example : (emittable tables).length = 148 ∨ True := Or.inr trivial
 example : essential .obtainAst = false ∧ essential .run = true := by decide
+
+
+/-! ## type payloads (round 7): a structured `data.Types` value written as its PRINTED form
+
+`genTypes`' default arm writes `data.NewBaseType(<ty.String()>)`: the generated program parses the printed
+type again. `data.NewBaseType` splits a union only when `len(ty) > 1 && strings.Index(ty, "|") > 1`
+(`Model.EmitType.splits`; tied to the real function every run by the type probe of harness/c16). What a
+type then accepts stays with the differential type stream (harness/c16/types.go). -/
+section TypePayloads
+open Model.EmitType
+
+/-- with its own arm (`data.NewUnionType` member by member) a union is a union in the generated program,
+whatever its members print -/
+theorem C16_type_union_arm_faithful (members : List (List Char)) :
+    readsBackAsUnion true members = true := rfl
+
+/-- PRINTING a union (the default arm) is faithful iff the first member's printed form is longer than one
+character — for any number (≥ 2) of members and any other members -/
+theorem C16_type_union_print_faithful_iff (p q : List Char) (r : List (List Char)) (h : barFree p) :
+    readsBackAsUnion false (p :: q :: r) = true ↔ p.length > 1 := by
+  simp [readsBackAsUnion, Proofs.EmitType.splits_join p q r h]
+
+/-- why the repository's tests stay green: every union whose first member has two or more characters -/
+theorem C16_type_union_print_ok_long (p q : List Char) (r : List (List Char)) (h : barFree p) (hl : p.length > 1) :
+    readsBackAsUnion false (p :: q :: r) = true :=
+  (C16_type_union_print_faithful_iff p q r h).2 hl
+
+/-- negation witnesses (the seeded demo's two types; a two-letter control) -/
+theorem C16_type_union_one_char_counterexample :
+    readsBackAsUnion false ["E".toList, "RuntimeException".toList] = false ∧
+    readsBackAsUnion false ["N".toList, "int".toList, "null".toList] = false ∧
+    splits "E|RuntimeException".toList = false ∧
+    readsBackAsUnion false ["Ex".toList, "RuntimeException".toList] = true ∧
+    readsBackAsUnion false ["RuntimeException".toList, "E".toList] = true := by decide
+
+/-- types whose printed form `data.NewBaseType` reads back as the same value (leaves without payload, and a
+class by its name) -/
+def typePrintSafe : List String :=
+  ["data.Arrays", "data.Bool", "data.Callable", "data.Class", "data.ClosureType", "data.Float", "data.Int",
+   "data.NullType", "data.Object", "data.StaticType", "data.String"]
+
+/-- implementations without an arm, on record with the reason: `AST` (annotation targets: built by the
+annotation machinery at run time, not by a parsed type), `Const` (the variable of a `const` declaration: never
+assigned through the type), `LspTypes` (language server only), `Mixed` (the parsers write `NewBaseType("mixed")`
+= nil), `Generic` (String() keeps the name; `Is` accepts everything: the arguments are not checked),
+`MultipleReturnType` (`: int, string` — genuine defect, fix C16-multiple-return-type adds the arm) -/
+def typeUnarmedOnRecord : List String :=
+  ["data.AST", "data.Const", "data.LspTypes", "data.Mixed", "data.Generic", "data.MultipleReturnType"]
+
+/-- OBLIGATION on the regenerated facts: every implementation of data.Types has its own arm in `genTypes`,
+or is print-safe, or is on record; the two structured arms are there (non-vacuity). A change that removes the
+`UnionType` arm, or a new structured Types implementation without an arm, fails here by name. -/
+theorem C16_types_arms_cover :
+    armsCover Generated.C16CompileNodes.typesImpls Generated.C16CompileNodes.genTypesArms typePrintSafe typeUnarmedOnRecord = true ∧
+    Generated.C16CompileNodes.genTypesArms.contains "data.UnionType" = true ∧
+    Generated.C16CompileNodes.genTypesArms.contains "data.NullableType" = true ∧
+    Generated.C16CompileNodes.typesImpls.contains "data.UnionType" = true := by decide +kernel
+
+example : barFree "E".toList := by intro c hc; simp at hc; subst hc; decide
+example : armsCover ["data.UnionType", "data.Int"] ["data.NullableType", "default"] typePrintSafe typeUnarmedOnRecord = false := by decide
+example : armsCover ["data.UnionType", "data.Int"] ["data.UnionType"] typePrintSafe typeUnarmedOnRecord = true := by decide
+
+end TypePayloads
 
 end C16
